@@ -340,10 +340,14 @@ def run_schedule(b, on_capture=None):
                    'control': bool(b.control) and op.get('control', True),
                    'stop': bool(b.stop) and op.get('stop', True) and not b.is_probe, 'probe': b.is_probe,
                    'load_calls0': len(b.load_log)}
+            stop = b.stop if (rec['stop'] or rec['probe']) else None
+            if op.get('stop_spec'):
+                stop = make_stop(b, op['stop_spec'])          # a stop condition of its own for this run
+                rec['stop'] = True
             try:
                 b.solver.run(time_discretization=mkq(op['dt']), simulation_time=mkq(op['T']),
                              motor_control=b.control if rec['control'] else None,
-                             stop_condition=b.stop if (rec['stop'] or rec['probe']) else None)
+                             stop_condition=stop)
             except Exception as ex:          # recorded, judged by the monitors
                 rec['exc'] = (type(ex).__name__, str(ex)[:200])
             rec['n1'] = len(b.pt.time)
